@@ -4,6 +4,7 @@ Property theorems only; helper lemmas live in Proofs/Lemmas/C16*.lean.
 -/
 import Proofs.Lemmas.C16Fit
 import Proofs.Lemmas.C16Header
+import Proofs.Lemmas.C16Offs
 
 namespace C16
 open Tab.TextTab
@@ -84,6 +85,89 @@ theorem widths_fit_prefix_counterexample :
 example : ∀ c ∈ f14Table.cells,
     Fits (layoutOf true insertSortCols f14Table f14Table.cells).lm
          (layoutOf true insertSortCols f14Table f14Table.cells).ws c := by decide
+
+/-! ### columns_align -/
+
+/-- **columns_align** (full strength at the level of the pieces `Format` writes): take the layout
+computed from ANY order `ordered` of the cells (so in particular any order among equal-span
+cells) and any list `sorted` of cells of the table in row-major order without overlaps inside a
+row (`Before`; this is what the final sort by (row, col) yields for cells added through the
+builder with spans ≥ 1). Then for every cell the emission loop does not skip, `CellOK` holds at
+the writer's position: the pad in front of the cell is non-negative and brings the writer exactly
+to `offs[col]` (same offset on every line), the margin is right-justified and whole in the
+column's margin width, the value is written whole after `k` blanks (`k = 0` left-aligned, value
+ending exactly at `offs[col+span]` right-aligned, `k = ⌊slack/2⌋` centred), the writer's offset
+bookkeeping equals the number of runes written, and the cell ends at or before `offs[col+span]`
+— which is at or before the next cell's column, so no two cells overlap. Widths are counted per
+piece (`runeCount`); pieces that end in an incomplete UTF-8 sequence could fuse with the next
+piece in a rune-counting viewer, that case is excluded in the S oracle, not here. -/
+theorem columns_align (sortCols : List Int → List Nat → List Nat)
+    (hperm : ∀ ws l, (sortCols ws l).Perm l)
+    (t : Table) (ordered sorted : List Cell)
+    (hsorted : sorted.Pairwise Before)
+    (hmem : ∀ c ∈ sorted, c ∈ ordered ∧ c ∈ t.cells ∧ 1 ≤ c.span ∧ c.col + c.span ≤ t.cols) :
+    EmitOK (layoutOf true sortCols t ordered).offs (layoutOf true sortCols t ordered).lm {} sorted := by
+  have hnn := widthPass_nonneg true t.isShrink sortCols (lmargins t.cols t.cells) t.cols ordered
+  have hlen := widthPass_length true t.isShrink sortCols (lmargins t.cols t.cells) t.cols ordered
+  apply emitOK_of
+  · exact fun i j hij hj => offsets_mono _ hnn i j hij hj
+  · exact fun i => offsets_nonneg _ hnn i
+  · exact hsorted
+  · intro c hc
+    obtain ⟨ho, ht, hs, hcol⟩ := hmem c hc
+    refine ⟨?_, ?_, ?_⟩
+    · simp only [layoutOf]; rw [offsets_length, hlen]; omega
+    · exact widths_fit_margin true sortCols t ordered c ht (by omega)
+    · have hf := widths_fit sortCols hperm t ordered c ho hs hcol
+      have hd := offsets_diff (layoutOf true sortCols t ordered).ws 0 c.col c.span
+        (by simp only [layoutOf]; rw [hlen]; exact hcol)
+      simp only [layoutOf] at hf hd ⊢
+      omega
+  · intro c _
+    exact ⟨Nat.zero_le _, fun _ => offsets_nonneg _ hnn _⟩
+
+/-- non-trivial instance: the F14 table in builder order is row-major without overlaps -/
+example : f14Table.cells.Pairwise Before := by
+  unfold Before; decide
+
+/-! ### no_trailing_blanks -/
+
+theorem getLast?_append_ne_nil {α : Type} (l l' : List α) (h : l' ≠ []) :
+    (l ++ l').getLast? = l'.getLast? := by
+  rw [List.getLast?_append]
+  cases l' with
+  | nil => exact absurd rfl h
+  | cons a as => simp [List.getLast?_cons_cons, List.getLast?_eq_some_getLast]
+
+/-- **no_trailing_blanks_partial**: the last byte written for a printed cell is the last byte of
+the cell's own text (margin followed by value) — the engine never writes padding AFTER content
+(cells are only padded on the left; an empty value is not padded at all since 8783093), and a
+printed cell has some text. Since the pieces of a line's last printed cell are the last pieces of
+that line (the only other pieces `emitCell` writes are newlines), a line ends in a blank only if
+the text of its last cell does. Gap (hence `_partial`): the step from pieces to the lines of the
+flattened output is argued here, not formalised; the S oracle checks it on the real text. -/
+theorem no_trailing_blanks_partial (offs : List Int) (lm : List Nat) (off : Int) (c : Cell)
+    (hok : CellOK offs lm off c) (hpr : skipped c = false) :
+    c.margin ++ c.value ≠ [] ∧
+    ((cellPieces offs lm off c).1.flatten).getLast? = (c.margin ++ c.value).getLast? := by
+  have hne : c.margin ++ c.value ≠ [] := by
+    intro h
+    have h1 : c.margin = [] := (List.append_eq_nil_iff.mp h).1
+    have h2 : c.value = [] := (List.append_eq_nil_iff.mp h).2
+    have : skipped c = true := by simp [skipped, h1, h2, isBlank, allSpaceAux]
+    rw [this] at hpr; cases hpr
+  refine ⟨hne, ?_⟩
+  obtain ⟨_, k, hp, _, he, _, _, _, _⟩ := hok
+  rw [hp]
+  by_cases hv : c.value = []
+  · have hk := he hv
+    subst hk
+    have hm : c.margin ≠ [] := by intro h; exact hne (by simp [h, hv])
+    simp only [hv, List.append_nil, spaces, List.replicate_zero, List.flatten_cons, List.flatten_nil]
+    rw [← List.append_assoc, getLast?_append_ne_nil _ _ hm]
+  · simp only [List.flatten_cons, List.flatten_nil, List.append_nil]
+    rw [← List.append_assoc, ← List.append_assoc, getLast?_append_ne_nil _ _ hv,
+      getLast?_append_ne_nil _ _ hv]
 
 /-! ### keyheader_partition -/
 
